@@ -334,6 +334,8 @@ class LiveRun:
         self.patches = Patches()
         self.shadow_tx = {"tot": 0, "totf": 0}
         self.pkg_calls = collections.Counter()
+        self.offset = 0.0          # seconds the clock seen by flumine.markets.market runs ahead (op "advance")
+        self.closed_since = {}     # driver's own ledger: market -> clock reading at its latest closure
         self.boot()
 
     # --- framework instance
@@ -490,7 +492,11 @@ class LiveRun:
     # --- steps
     def do(self, s):
         op = s["op"]
-        if op == "book":
+        if op == "advance":
+            self.offset += float(s["seconds"])
+            self.step("advance", seconds=int(s["seconds"]), now=int(self.offset))
+        elif op == "book":
+            self.closed_since.pop(s.get("mid", "1.1"), None)      # data for a closed market re-opens it
             mb = self.book(s.get("mid", "1.1"), s.get("status", "OPEN"), s.get("version", 1), k=s.get("k", 0))
             self.raise_in = {tuple(x): True for x in s.get("raise", [])}
             self.fl._process_market_books(fevents.MarketBookEvent([mb]))
@@ -504,7 +510,10 @@ class LiveRun:
                 ev = self.fl.handler_queue.get()
                 if ev.EVENT_TYPE == fevents.EventType.CLOSE_MARKET:
                     self.fl._process_close_market(ev)
-            self.step("close", mid=s.get("mid", "1.1"), closed_calls=[c for c in self.closed_calls[n0:]], subscribed=[st.name for st in self.strategies])
+            since_before = {m: int(t) for m, t in self.closed_since.items() if m != s.get("mid", "1.1")}
+            self.closed_since[s.get("mid", "1.1")] = self.offset
+            self.step("close", mid=s.get("mid", "1.1"), closed_calls=[c for c in self.closed_calls[n0:]], subscribed=[st.name for st in self.strategies],
+                      now=int(self.offset), closed_since=since_before)
         elif op == "req":
             self.requests(s)
             self.step("req", strat=s.get("strat", "A"))
@@ -741,6 +750,17 @@ class LiveRun:
 
     def run(self):
         self.instrument()
+        import types
+        import flumine.markets.market as mmod
+        drv = self
+        real = datetime.datetime
+
+        class _ShiftedDT(real):
+            @classmethod
+            def utcnow(cls):
+                return real.utcnow() + datetime.timedelta(seconds=drv.offset)
+        shim = types.SimpleNamespace(datetime=_ShiftedDT, timedelta=datetime.timedelta, timezone=datetime.timezone)
+        self.patches.wrap(mmod, "datetime", lambda orig: shim)
         try:
             self.step("init")
             for s in self.scn["steps"]:
